@@ -6,43 +6,57 @@
 (*   "M1H","M2H"  marker followed by the original hash                     *)
 (*   "H"    a normal hash of the account's password                        *)
 (*   "D"    a django-style disabled string ("!" + random text)             *)
-(* Kind of the context's disabled scheme: "unix1" (marker "!"), "unix2"    *)
-(* (marker "*"), "django".                                                 *)
+(* A context lists one or two disabled-account handlers, L = a sequence of *)
+(* "unix1" (marker "!"), "unix2" (marker "*"), "django", next to the real  *)
+(* scheme of the account's hash; `known` says whether that real scheme is  *)
+(* (still) configured - a reload of the context can drop it.               *)
+(*   - a string is attributed to the FIRST handler that claims it;         *)
+(*   - disable() is done by the first disabled handler of the list;        *)
+(*   - enable() by the handler the string is attributed to.                *)
 (***************************************************************************)
 EXTENDS Naturals, Sequences
 
 Stored == {"None", "Empty", "M1", "M2", "M1H", "M2H", "H", "D"}
-Marker(kind) == IF kind = "unix2" THEN "M2" ELSE "M1"
-WithHash(kind) == IF kind = "unix2" THEN "M2H" ELSE "M1H"
+Marker(h) == IF h = "unix2" THEN "M2" ELSE "M1"
+WithHash(h) == IF h = "unix2" THEN "M2H" ELSE "M1H"
 
-\* what the context recognises as a disabled account
-IsDisabled(kind, x) ==
-    IF kind = "django" THEN x \in {"M1", "M1H", "D"}            \* anything starting with "!"
+\* what one handler claims
+HClaims(h, x) ==
+    IF h = "django" THEN x \in {"M1", "M1H", "D"}               \* anything starting with "!"
     ELSE x \in {"Empty", "M1", "M2", "M1H", "M2H", "D"}         \* empty, or starting with "!" / "*"
-\* strings the context cannot attribute to any scheme (-> value error)
-Unknown(kind, x) == x = "None" \/ (kind = "django" /\ x \in {"Empty", "M2", "M2H"})
+\* the handler a string is attributed to: a member of L, "real", or "unknown" (-> value error)
+Ident(L, known, x) ==
+    IF \E i \in 1..Len(L) : HClaims(L[i], x)
+    THEN L[CHOOSE i \in 1..Len(L) : HClaims(L[i], x) /\ \A j \in 1..(i - 1) : ~HClaims(L[j], x)]
+    ELSE IF x = "H" /\ known THEN "real" ELSE "unknown"
+IsDisabled(L, known, x) == Ident(L, known, x) \notin {"real", "unknown"}
+Unknown(L, known, x) == x = "None" \/ Ident(L, known, x) = "unknown"
 
-\* disable(): <<"ok", stored'>> - never fails, keeps an embedded/original hash where the scheme can
-Disable(kind, x) ==
-    IF kind = "django" THEN <<"ok", "D">>
-    ELSE IF x \in {"None", "Empty", "M1", "M2"} THEN <<"ok", Marker(kind)>>
-    ELSE IF x \in {"M1H", "M2H", "H"} THEN <<"ok", WithHash(kind)>>
-    ELSE <<"ok", WithHash(kind)>>                                 \* "D": marker + the text that followed the "!"
+\* one handler's disable(): never fails, keeps an embedded/original hash where the scheme can
+HDisable(h, x) ==
+    IF h = "django" THEN <<"ok", "D">>
+    ELSE IF x \in {"None", "Empty", "M1", "M2"} THEN <<"ok", Marker(h)>>
+    ELSE <<"ok", WithHash(h)>>                                    \* "H", "M1H", "M2H" (and marker + the text after a "!")
+Disable(L, x) == HDisable(L[1], x)
 
-\* enable(): the original hash when one is embedded, ValueError otherwise; a normal hash is returned unchanged
-Enable(kind, x) ==
-    IF Unknown(kind, x) THEN <<"ValueError">>
-    ELSE IF ~IsDisabled(kind, x) THEN <<"ok", x>>
-    ELSE IF kind # "django" /\ x \in {"M1H", "M2H"} THEN <<"ok", "H">>
-    ELSE IF kind # "django" /\ x = "D" THEN <<"ok", "Dtail">>     \* whatever followed the marker (not a real hash)
+\* one handler's enable(): the original hash when one is embedded, ValueError otherwise
+HEnable(h, x) ==
+    IF h # "django" /\ x \in {"M1H", "M2H"} THEN <<"ok", "H">>
+    ELSE IF h # "django" /\ x = "D" THEN <<"ok", "Dtail">>        \* whatever followed the marker (not a real hash)
     ELSE <<"ValueError">>
+\* enable(): by the handler the string is attributed to; a normal hash is returned unchanged
+Enable(L, known, x) ==
+    IF Unknown(L, known, x) THEN <<"ValueError">>
+    ELSE IF ~IsDisabled(L, known, x) THEN <<"ok", x>>
+    ELSE HEnable(Ident(L, known, x), x)
 
-IsEnabled(kind, x) == IF Unknown(kind, x) THEN "ValueError" ELSE IF IsDisabled(kind, x) THEN "False" ELSE "True"
+IsEnabled(L, known, x) == IF Unknown(L, known, x) THEN "ValueError" ELSE IF IsDisabled(L, known, x) THEN "False" ELSE "True"
 
-\* verify(): never TRUE for a disabled or missing credential
-Verify(kind, rightPw, x) ==
-    IF x = "None" THEN "False"                    \* plus one dummy verification
-    ELSE IF Unknown(kind, x) THEN "ValueError"
+\* verify(): never TRUE for a disabled or missing credential; a missing one costs one dummy verification
+\* with whatever the context's CURRENT configuration is
+Verify(L, known, rightPw, x) ==
+    IF x = "None" THEN "False"
+    ELSE IF Unknown(L, known, x) THEN "ValueError"
     ELSE IF x = "H" THEN (IF rightPw THEN "True" ELSE "False")
     ELSE "False"
 =============================================================================
